@@ -36,6 +36,8 @@ pub struct Rec {
     pub pacc: bool,
     pub plax: bool,
     pub pamb: bool,
+    pub plossy: bool,
+    pub praw: bool,
     pub pv: J,
 }
 pub fn load_recs(path: &str) -> Vec<Rec> {
@@ -121,14 +123,14 @@ pub fn variants(rec: &Rec, idx: &HashMap<String, usize>, recs: &[Rec], tb: &Tabl
 // entry points
 
 #[derive(Clone, Copy, PartialEq, Debug)]
-pub enum Sem { Strict, Lax, PStrict, PLax, Kind(&'static str) }
+pub enum Sem { Strict, Lax, PStrict, PLax, PLossy, PRaw, Kind(&'static str) }
 impl Sem {
     pub fn name(&self) -> String {
         match self { Sem::Strict => "strict".into(), Sem::Lax => "lax".into(), Sem::PStrict => "pstrict".into(),
-                     Sem::PLax => "plax".into(), Sem::Kind(k) => format!("kind:{k}") }
+                     Sem::PLax => "plax".into(), Sem::PLossy => "plossy".into(), Sem::PRaw => "praw".into(), Sem::Kind(k) => format!("kind:{k}") }
     }
 }
-pub struct Ep { pub name: &'static str, pub sem: Sem, pub utf8_only: bool, pub f: fn(&[u8]) -> Result<Option<J>, sonic_rs::Error> }
+pub struct Ep { pub name: &'static str, pub sem: Sem, pub utf8_only: bool, pub f: fn(&[u8]) -> Result<Option<J>, sonic_rs::Error>, pub pre: &'static [u8], pub post: &'static [u8] }
 
 #[derive(Deserialize)]
 #[serde(deny_unknown_fields)]
@@ -143,28 +145,40 @@ pub fn entry_points() -> Vec<Ep> {
     use sonic_rs::{Deserializer, LazyValue, OwnedLazyValue, Value};
     use serde::de::IgnoredAny;
     vec![
-        Ep { name: "value_from_slice", sem: Sem::Strict, utf8_only: false, f: |b| sonic_rs::from_slice::<Value>(b).map(|v| dv(&v)) },
-        Ep { name: "value_from_str", sem: Sem::Strict, utf8_only: true, f: |b| sonic_rs::from_str::<Value>(s(b)).map(|v| dv(&v)) },
-        Ep { name: "value_from_reader", sem: Sem::Strict, utf8_only: false, f: |b| sonic_rs::from_reader::<_, Value>(std::io::Cursor::new(b)).map(|v| dv(&v)) },
-        Ep { name: "value_in_tuple", sem: Sem::Strict, utf8_only: false, f: |b| sonic_rs::from_slice::<(Value,)>(&wrap(b"[", b, b"]")).map(|v| dv(&v.0)) },
-        Ep { name: "value_in_struct", sem: Sem::Strict, utf8_only: false, f: |b| sonic_rs::from_slice::<WrapV>(&wrap(b"{\"v\":", b, b"}")).map(|v| dv(&v.v)) },
-        Ep { name: "sjvalue_from_slice", sem: Sem::Strict, utf8_only: false, f: |b| sonic_rs::from_slice::<serde_json::Value>(b).map(|v| Some(json!({"sj": dump_sj(&v)}))) },
-        Ep { name: "string_from_slice", sem: Sem::Kind("str"), utf8_only: false, f: |b| sonic_rs::from_slice::<String>(b).map(|x| Some(json!({"t":"str","s":crate::dump::cps(&x)}))) },
-        Ep { name: "f64_from_slice", sem: Sem::Kind("num"), utf8_only: false, f: |b| sonic_rs::from_slice::<f64>(b).map(|_| None) },
-        Ep { name: "bool_from_slice", sem: Sem::Kind("bool"), utf8_only: false, f: |b| sonic_rs::from_slice::<bool>(b).map(|x| Some(json!({"t":"bool","b":x}))) },
-        Ep { name: "unit_from_slice", sem: Sem::Kind("null"), utf8_only: false, f: |b| sonic_rs::from_slice::<()>(b).map(|_| Some(json!({"t":"null"}))) },
-        Ep { name: "lazy_from_slice", sem: Sem::Lax, utf8_only: false, f: |b| sonic_rs::from_slice::<LazyValue>(b).map(|_| None) },
-        Ep { name: "lazy_from_str", sem: Sem::Lax, utf8_only: true, f: |b| sonic_rs::from_str::<LazyValue>(s(b)).map(|_| None) },
-        Ep { name: "ownedlazy_from_slice", sem: Sem::Lax, utf8_only: false, f: |b| sonic_rs::from_slice::<OwnedLazyValue>(b).map(|_| None) },
-        Ep { name: "ignored_from_slice", sem: Sem::Lax, utf8_only: false, f: |b| sonic_rs::from_slice::<IgnoredAny>(b).map(|_| None) },
-        Ep { name: "ignored_in_tuple", sem: Sem::Lax, utf8_only: false, f: |b| sonic_rs::from_slice::<(IgnoredAny,)>(&wrap(b"[", b, b"]")).map(|_| None) },
-        Ep { name: "lazy_in_tuple", sem: Sem::Lax, utf8_only: false, f: |b| sonic_rs::from_slice::<(LazyValue,)>(&wrap(b"[", b, b"]")).map(|_| None) },
+        Ep { name: "value_from_slice", sem: Sem::Strict, utf8_only: false, pre: b"", post: b"", f: |b| sonic_rs::from_slice::<Value>(b).map(|v| dv(&v)) },
+        Ep { name: "value_from_str", sem: Sem::Strict, utf8_only: true, pre: b"", post: b"", f: |b| sonic_rs::from_str::<Value>(s(b)).map(|v| dv(&v)) },
+        Ep { name: "value_from_reader", sem: Sem::Strict, utf8_only: false, pre: b"", post: b"", f: |b| sonic_rs::from_reader::<_, Value>(std::io::Cursor::new(b)).map(|v| dv(&v)) },
+        Ep { name: "value_in_tuple", sem: Sem::Strict, utf8_only: false, pre: b"[", post: b"]", f: |b| sonic_rs::from_slice::<(Value,)>(&wrap(b"[", b, b"]")).map(|v| dv(&v.0)) },
+        Ep { name: "value_in_struct", sem: Sem::Strict, utf8_only: false, pre: b"{\"v\":", post: b"}", f: |b| sonic_rs::from_slice::<WrapV>(&wrap(b"{\"v\":", b, b"}")).map(|v| dv(&v.v)) },
+        Ep { name: "sjvalue_from_slice", sem: Sem::Strict, utf8_only: false, pre: b"", post: b"", f: |b| sonic_rs::from_slice::<serde_json::Value>(b).map(|v| Some(json!({"sj": dump_sj(&v)}))) },
+        Ep { name: "string_from_slice", sem: Sem::Kind("str"), utf8_only: false, pre: b"", post: b"", f: |b| sonic_rs::from_slice::<String>(b).map(|x| Some(json!({"t":"str","s":crate::dump::cps(&x)}))) },
+        Ep { name: "f64_from_slice", sem: Sem::Kind("num"), utf8_only: false, pre: b"", post: b"", f: |b| sonic_rs::from_slice::<f64>(b).map(|_| None) },
+        Ep { name: "bool_from_slice", sem: Sem::Kind("bool"), utf8_only: false, pre: b"", post: b"", f: |b| sonic_rs::from_slice::<bool>(b).map(|x| Some(json!({"t":"bool","b":x}))) },
+        Ep { name: "unit_from_slice", sem: Sem::Kind("null"), utf8_only: false, pre: b"", post: b"", f: |b| sonic_rs::from_slice::<()>(b).map(|_| Some(json!({"t":"null"}))) },
+        Ep { name: "lazy_from_slice", sem: Sem::Lax, utf8_only: false, pre: b"", post: b"", f: |b| sonic_rs::from_slice::<LazyValue>(b).map(|_| None) },
+        Ep { name: "lazy_from_str", sem: Sem::Lax, utf8_only: true, pre: b"", post: b"", f: |b| sonic_rs::from_str::<LazyValue>(s(b)).map(|_| None) },
+        Ep { name: "ownedlazy_from_slice", sem: Sem::Lax, utf8_only: false, pre: b"", post: b"", f: |b| sonic_rs::from_slice::<OwnedLazyValue>(b).map(|_| None) },
+        Ep { name: "ignored_from_slice", sem: Sem::Lax, utf8_only: false, pre: b"", post: b"", f: |b| sonic_rs::from_slice::<IgnoredAny>(b).map(|_| None) },
+        Ep { name: "ignored_in_tuple", sem: Sem::Lax, utf8_only: false, pre: b"[", post: b"]", f: |b| sonic_rs::from_slice::<(IgnoredAny,)>(&wrap(b"[", b, b"]")).map(|_| None) },
+        Ep { name: "lazy_in_tuple", sem: Sem::Lax, utf8_only: false, pre: b"[", post: b"]", f: |b| sonic_rs::from_slice::<(LazyValue,)>(&wrap(b"[", b, b"]")).map(|_| None) },
         // prefix semantics: Deserializer::deserialize stops after the first value
-        Ep { name: "de_bytes_value", sem: Sem::PStrict, utf8_only: false, f: |b| { let x = bytes::Bytes::copy_from_slice(b); Deserializer::from_json(&x).deserialize::<Value>().map(|v| dv(&v)) } },
-        Ep { name: "de_faststr_value", sem: Sem::PStrict, utf8_only: true, f: |b| { let x = faststr::FastStr::new(s(b)); Deserializer::from_json(&x).deserialize::<Value>().map(|v| dv(&v)) } },
-        Ep { name: "de_string_value", sem: Sem::PStrict, utf8_only: true, f: |b| { let x = s(b).to_string(); Deserializer::from_json(&x).deserialize::<Value>().map(|v| dv(&v)) } },
-        Ep { name: "de_slice_lazy", sem: Sem::PLax, utf8_only: false, f: |b| Deserializer::from_slice(b).deserialize::<LazyValue>().map(|_| None) },
-        Ep { name: "de_str_second_value", sem: Sem::PStrict, utf8_only: true, f: |b| {
+        Ep { name: "de_bytes_value", sem: Sem::PStrict, utf8_only: false, pre: b"", post: b"", f: |b| { let x = bytes::Bytes::copy_from_slice(b); Deserializer::from_json(&x).deserialize::<Value>().map(|v| dv(&v)) } },
+        Ep { name: "de_faststr_value", sem: Sem::PStrict, utf8_only: true, pre: b"", post: b"", f: |b| { let x = faststr::FastStr::new(s(b)); Deserializer::from_json(&x).deserialize::<Value>().map(|v| dv(&v)) } },
+        Ep { name: "de_string_value", sem: Sem::PStrict, utf8_only: true, pre: b"", post: b"", f: |b| { let x = s(b).to_string(); Deserializer::from_json(&x).deserialize::<Value>().map(|v| dv(&v)) } },
+        Ep { name: "de_slice_lazy", sem: Sem::PLax, utf8_only: false, pre: b"", post: b"", f: |b| Deserializer::from_slice(b).deserialize::<LazyValue>().map(|_| None) },
+        Ep { name: "de_slice_value_rawnum", sem: Sem::PRaw, utf8_only: false, pre: b"", post: b"", f: |b| Deserializer::from_slice(b).use_rawnumber().deserialize::<Value>().map(|v| dv(&v)) },
+        Ep { name: "de_str_value_lossy", sem: Sem::PLossy, utf8_only: true, pre: b"", post: b"", f: |b| Deserializer::from_str(s(b)).utf8_lossy().deserialize::<Value>().map(|v| dv(&v)) },
+        Ep { name: "de_str_second_value_lossy", sem: Sem::PLossy, utf8_only: true, pre: b"0 ", post: b"", f: |b| {
+            let x = wrap(b"0 ", b, b"");
+            let mut de = Deserializer::from_str(s(&x)).utf8_lossy();
+            let _ = de.deserialize::<u8>()?;
+            de.deserialize::<Value>().map(|v| dv(&v)) } },
+        Ep { name: "de_slice_second_value_rawnum", sem: Sem::PRaw, utf8_only: false, pre: b"0 ", post: b"", f: |b| {
+            let x = wrap(b"0 ", b, b"");
+            let mut de = Deserializer::from_slice(&x).use_rawnumber();
+            let _ = de.deserialize::<u8>()?;
+            de.deserialize::<Value>().map(|v| dv(&v)) } },
+        Ep { name: "de_str_second_value", sem: Sem::PStrict, utf8_only: true, pre: b"0 ", post: b"", f: |b| {
             // second document of a stream: the copying (non-padded) DOM parser
             let x = wrap(b"0 ", b, b"");
             let mut de = Deserializer::from_str(s(&x));
@@ -179,6 +193,8 @@ pub fn expected(rec: &Rec, sem: Sem) -> bool {
         Sem::Lax => rec.lax,
         Sem::PStrict => rec.pacc,
         Sem::PLax => rec.plax,
+        Sem::PLossy => rec.plossy,
+        Sem::PRaw => rec.praw,
         Sem::Kind(k) => rec.acc && rec.v["t"] == k,
     }
 }
@@ -223,6 +239,9 @@ pub fn replay(args: &[String]) -> i32 {
     let mut per_kind: HashMap<&'static str, u64> = HashMap::new();
     let mut mism: Vec<J> = Vec::new();
     let mut mism_count: HashMap<String, u32> = HashMap::new();
+    let leakcheck = prop == "C01";
+    let mut value_checks = 0u64;
+    let mut leak_checks = 0u64;
     let mut samples: Vec<J> = Vec::new();
     let mut panics = 0u64;
     for (ri, rec) in recs.iter().enumerate() {
@@ -256,7 +275,7 @@ pub fn replay(args: &[String]) -> i32 {
                 if ep.utf8_only && !utf8 { continue; }
                 let want = expected(rec, ep.sem);
                 // a root-level number followed by a non-delimiter: outcome of one-value entry points is open
-                if rec.pamb && matches!(ep.sem, Sem::PStrict | Sem::PLax) { continue; }
+                if rec.pamb && matches!(ep.sem, Sem::PStrict | Sem::PLax | Sem::PLossy | Sem::PRaw) { continue; }
                 let got = catch(|| (ep.f)(&var.bytes));
                 evals += 1;
                 let (ok, detail) = match &got {
@@ -266,20 +285,35 @@ pub fn replay(args: &[String]) -> i32 {
                 };
                 let e = per_ep.entry(ep.name).or_default();
                 if ok { e.0 += 1 } else { e.1 += 1 }
-                let mut bad = got.is_err() || ok != want;
-                let mut why = if got.is_err() { "panic".to_string() } else { format!("verdict: spec {} impl {}", want, ok) };
-                if !bad && detail.get("t").and_then(|t| t.as_str()) == Some("inconsistent") { bad = true; why = format!("inconsistent value: {}", detail["why"]); }
+                let mut class = if got.is_err() { "panic" } else if ok != want { "verdict" } else { "" };
+                let mut why = if got.is_err() { format!("panic: {}", detail["panic"]) } else { format!("verdict: spec {} impl {}", want, ok) };
+                if class.is_empty() && detail.get("t").and_then(|t| t.as_str()) == Some("inconsistent") { class = "inconsistent"; why = format!("inconsistent value: {}", detail["why"]); }
                 // value check on the canonical concretisation (spans are abstract positions there)
-                if !bad && ok && var.kind == "canon" && prop == "C03" {
-                    let specv = match ep.sem { Sem::PStrict | Sem::PLax => &rec.pv, _ => &rec.v };
+                if class.is_empty() && ok && var.kind == "canon" {
+                    let specv = match ep.sem { Sem::PStrict | Sem::PLax | Sem::PLossy | Sem::PRaw => &rec.pv, _ => &rec.v };
                     if !detail.is_null() && detail.get("sj").is_none() {
-                        if let Err(w) = matches_spec(specv, &detail, false) { bad = true; why = format!("value: {w}"); }
+                        value_checks += 1;
+                        if let Err(w) = matches_spec(specv, &detail, ep.sem == Sem::PRaw) { class = "value"; why = format!("value: {w}"); }
                     }
                 }
-                if bad && { let c = mism_count.entry(format!("{}|{}", ep.name, &why[..why.len().min(24)])).or_insert(0u32); *c += 1; *c <= 8 } {
-                    mism.push(json!({"suite":"jt-replay","ep":ep.name,"sem":ep.sem.name(),"kind":var.kind,
+                if !class.is_empty() && { let c = mism_count.entry(format!("{}|{}", ep.name, &why[..why.len().min(24)])).or_insert(0u32); *c += 1; *c <= 8 } {
+                    mism.push(json!({"suite":"jt-replay","class":class,"ep":ep.name,"sem":ep.sem.name(),"kind":var.kind,
                                      "text":rec.t,"bytes_hex":hex(&var.bytes),"bytes_lossy":lossy(&var.bytes),
                                      "spec_accepts":want,"impl_ok":ok,"detail":detail,"why":why,"rec":ri}));
+                }
+            }
+            // leak clause of C01: live heap blocks must return to the level before the case
+            if leakcheck {
+                let run_all = |b: &[u8]| { for ep in &eps { if ep.utf8_only && !utf8 { continue; } let _ = catch(|| (ep.f)(b)); } };
+                run_all(&var.bytes);            // warm-up (thread-local buffers, lazy statics)
+                let before = live();
+                run_all(&var.bytes);
+                let after = live();
+                leak_checks += 1;
+                if after.1 > before.1 || after.0 > before.0 {
+                    mism.push(json!({"suite":"jt-replay","class":"leak","ep":"*","kind":var.kind,"text":rec.t,
+                                     "bytes_hex":hex(&var.bytes),"bytes_lossy":lossy(&var.bytes),
+                                     "why":format!("live heap grew by {} blocks / {} bytes across one repetition of the case", after.1-before.1, after.0-before.0)}));
                 }
             }
         }
@@ -289,7 +323,7 @@ pub fn replay(args: &[String]) -> i32 {
         }
     }
     let summary = json!({"suite":"jt-replay","prop":prop,"behaviours":recs.len(),"cases":cases,"evaluations":evals,
-        "nontrivial":nontrivial,"panics":panics,
+        "nontrivial":nontrivial,"panics":panics,"value_checks":value_checks,"leak_checks":leak_checks,
         "per_ep": per_ep.iter().map(|(k, v)| (k.to_string(), json!({"ok":v.0,"err":v.1}))).collect::<serde_json::Map<_,_>>(),
         "per_kind": per_kind.iter().map(|(k, v)| (k.to_string(), json!(v))).collect::<serde_json::Map<_,_>>(),
         "mismatches": mism, "samples": samples});
@@ -399,7 +433,8 @@ pub fn doc_event(eps: &[Ep], bytes: &[u8], origin: &str) -> (J, u64) {
         let got = catch(|| (ep.f)(bytes));
         let r = match got {
             Ok(Ok(d)) => json!({"sem": ep.sem.name(), "ok": true, "v": d.unwrap_or(json!({"t":"nodump"})), "panic": false}),
-            Ok(Err(e)) => json!({"sem": ep.sem.name(), "ok": false, "err": err_j(&e), "panic": false}),
+            Ok(Err(e)) => json!({"sem": ep.sem.name(), "ok": false, "err": err_j(&e), "panic": false,
+                                 "pre": bytes_j(ep.pre), "post": bytes_j(ep.post)}),
             Err(p) => { panics += 1; json!({"sem": ep.sem.name(), "ok": false, "panic": true, "msg": p}) }
         };
         res.insert(ep.name.to_string(), r);
@@ -425,6 +460,7 @@ pub fn record(args: &[String]) -> i32 {
     let mut panics = 0u64;
     let mut count = 0u64;
     let mut accepted = 0u64;
+    let mut rejected = 0u64;
     for i in 0..n {
         let (bytes, origin) = {
             let mut g = Gen { rng: &mut rng };
@@ -443,12 +479,12 @@ pub fn record(args: &[String]) -> i32 {
         };
         inflight.set(i, &bytes);
         let (ev, p) = doc_event(&eps, &bytes, origin);
-        if ev["res"]["value_from_slice"]["ok"] == true { accepted += 1; }
+        if ev["res"]["value_from_slice"]["ok"] == true { accepted += 1; } else { rejected += 1; }
         panics += p;
         outs[(i % shards) as usize].line(&ev);
         count += 1;
     }
     for o in outs.iter_mut() { o.flush(); }
-    println!("{}", json!({"suite":"jt-record","events":count,"accepted_docs":accepted,"panics":panics}));
+    println!("{}", json!({"suite":"jt-record","events":count,"accepted_docs":accepted,"rejected_docs":rejected,"panics":panics}));
     0
 }
